@@ -11,25 +11,25 @@ Proof. vm_cast_no_check (eq_refl true). Qed.
 Definition chk_k1_torn (s : gstate) : bool :=
   negb (linearizable (cfg_disk cfg_get_upd) (rev (g_hist s)) (disk (g_core s))) && negb (final_agree s) &&
   existsb (event_eqb (ERet 0 0 (RCont []))) (g_hist s) && (mem (g_core s) =? 2).
-Lemma k1_torn_ok : refutes gen_flags cfg_get_upd sch_k1_torn chk_k1_torn = true.
+Lemma k1_torn_ok : refutes old_flags cfg_get_upd sch_k1_torn chk_k1_torn = true.
 Proof. vm_cast_no_check (eq_refl true). Qed.
 
 (* K1, accounting: history linearizable, but entry size 5 for 7 cached bytes and current_memory_usage 7 <> 5 *)
 Definition chk_k1_acct (s : gstate) : bool :=
   linearizable (cfg_disk cfg_get_upd) (rev (g_hist s)) (disk (g_core s)) && negb (final_agree s) && negb (mem_agrees (g_core s)).
-Lemma k1_acct_ok : refutes gen_flags cfg_get_upd sch_k1_acct chk_k1_acct = true.
+Lemma k1_acct_ok : refutes old_flags cfg_get_upd sch_k1_acct chk_k1_acct = true.
 Proof. vm_cast_no_check (eq_refl true). Qed.
 
 (* K2: get_file raises AssertionError, current_memory_usage = -5 with an empty cache *)
 Definition chk_k2 (s : gstate) : bool :=
   negb (linearizable (cfg_disk cfg_get_unl) (rev (g_hist s)) (disk (g_core s))) && negb (final_agree s) &&
   existsb (event_eqb (ERet 0 0 (RExn EAssert))) (g_hist s) && (mem (g_core s) =? -5).
-Lemma k2_ok : refutes gen_flags cfg_get_unl sch_k2 chk_k2 = true.
+Lemma k2_ok : refutes old_flags cfg_get_unl sch_k2 chk_k2 = true.
 Proof. vm_cast_no_check (eq_refl true). Qed.
 
 (* K3: update_file raises AssertionError although the bytes are on disk, current_memory_usage = -8 *)
 Definition chk_k3 (s : gstate) : bool :=
   negb (linearizable (cfg_disk cfg_upd_unl) (rev (g_hist s)) (disk (g_core s))) && negb (final_agree s) &&
   existsb (event_eqb (ERet 0 0 (RExn EAssert))) (g_hist s).
-Lemma k3_ok : refutes gen_flags cfg_upd_unl sch_k3 chk_k3 = true.
+Lemma k3_ok : refutes old_flags cfg_upd_unl sch_k3 chk_k3 = true.
 Proof. vm_cast_no_check (eq_refl true). Qed.
